@@ -4,26 +4,39 @@ package main
 // the builder's order check and of the serialisation depends on, located by function name and syntactic role (never by
 // line or statement number), plus informational structural fingerprints of the modelled functions.
 //
-// A constant whose shape is not recognised is emitted with a placeholder value and makes the corresponding
-// `found…` flag false (the Props theorems take `found… = true` as a decidable side condition), it never gets a guess.
+// Policy: every item has a DEFAULT, the hand-written value the model used before regeneration. The items are grouped by
+// the Go function they come from; when every item of a group is recognised the values found in the source are emitted,
+// otherwise (the function was restructured) the whole group falls back to its defaults and `found_<group> := false`
+// (`found_<item>` per item). Nothing in Props/ depends on the `found_…` flags: with the defaults the model is what it
+// was before regeneration and the correspondence alone ties it to the code. The items that were not regenerated are
+// listed in `Gen.Dawg.notRegenerated` and in `<facts dir>/not_regenerated.DawgConsts.json`.
 
 import (
+	"encoding/json"
 	"fmt"
 	"go/ast"
 	"go/constant"
 	"go/token"
+	"os"
 	"path/filepath"
 	"sort"
 	"strconv"
 	"strings"
 )
 
-type c12Ctx struct {
-	p       *pkgInfo
-	missing []string // names of constants whose shape was not recognised
+type c12Item struct {
+	name, doc string
+	val, def  int64
+	ok        bool
+	// for predicates: Lean text instead of a number
+	pred, predDef, sig string
 }
 
-func (c *c12Ctx) miss(name string) { c.missing = append(c.missing, name) }
+type c12Ctx struct {
+	p       *pkgInfo
+	missing []string // names of the items that were not regenerated (their group fell back to the defaults)
+	group   []c12Item
+}
 
 func c12Strip(e ast.Expr) ast.Expr {
 	for {
@@ -213,19 +226,76 @@ func c12Calls(fd *ast.FuncDecl, pkgNames map[string]bool) string {
 	return strings.Join(parts, ";")
 }
 
+func c12List(a []int64) string {
+	parts := []string{}
+	for _, x := range a {
+		parts = append(parts, strconv.FormatInt(x, 10))
+	}
+	return "[" + strings.Join(parts, ", ") + "]"
+}
+
+// c12WriteFacts records the items that were not regenerated next to the facts file (the facts map of main.go is not
+// reachable from a generator; the key it should be merged under is "not_regenerated:DawgConsts.lean").
+func c12WriteFacts(missing []string) {
+	if len(os.Args) < 4 {
+		return
+	}
+	if missing == nil {
+		missing = []string{}
+	}
+	fb, _ := json.MarshalIndent(map[string]interface{}{"not_regenerated:DawgConsts.lean": missing}, "", " ")
+	os.MkdirAll(filepath.Dir(os.Args[3]), 0o755)
+	os.WriteFile(filepath.Join(filepath.Dir(os.Args[3]), "not_regenerated.DawgConsts.json"), fb, 0o644)
+}
+
 func init() {
 	registerGen(func(repo string) (string, string) {
 		c := &c12Ctx{p: loadPkg(filepath.Join(repo, "dawg"))}
 		var b strings.Builder
 		b.WriteString("/-! GENERATED by /verif/extract (extract/c12.go) from /repo/dawg/dawg.go on every run — do not edit.\n")
-		b.WriteString("Constants are located by function name and syntactic role; `found… = false` marks a shape that was not recognised\n(the value next to it is then a meaningless placeholder). -/\n")
+		b.WriteString("Constants are located by function name and syntactic role, grouped by function. `found_… = false`: the group was not\nrecognised and shows its DEFAULTS (the hand-written values of the model before regeneration); no theorem depends on\nthe `found_…` flags. -/\n")
 		b.WriteString("namespace Gen.Dawg\n\n")
+		defaults := map[string]int64{"encBelow": 128, "lzBits": 64, "lzShift": 3, "encBufFull": 9, "encPrefixSum": 136,
+			"encLoopBound": 8, "encDstOffset": 1, "encShiftUnit": 8, "encShiftTop": 7, "decBelow": 128, "decPrefixBase": 128,
+			"decTooManyFrom": 9, "decShift": 8, "encBufSize": 9, "decBufSize": 9, "finalTrueByte": 1, "finalFalseByte": 0,
+			"addHasWordFrom": 1}
 		nat := func(name string, v int64, ok bool, doc string) {
-			if !ok || v < 0 {
-				c.miss(name)
-				v = 0
+			def, has := defaults[name]
+			if !has {
+				die("dawg: no default for %s", name)
 			}
-			fmt.Fprintf(&b, "/-- %s -/\ndef %s : Nat := %d\n\n", doc, name, v)
+			c.group = append(c.group, c12Item{name: name, doc: doc, val: v, def: def, ok: ok && v >= 0})
+		}
+		pred := func(name, sig, text string, ok bool, def, doc string) {
+			c.group = append(c.group, c12Item{name: name, doc: doc, ok: ok, pred: text, predDef: def, sig: sig})
+		}
+		// flush emits the pending group: the values found if every item was recognised, the defaults otherwise
+		flush := func(flag, doc string) {
+			all := true
+			for _, it := range c.group {
+				all = all && it.ok
+			}
+			for _, it := range c.group {
+				if it.sig != "" {
+					text := it.pred
+					if !all {
+						text = it.predDef
+					}
+					fmt.Fprintf(&b, "/-- %s -/\ndef %s %s := %s\n", it.doc, it.name, it.sig, text)
+				} else {
+					v := it.val
+					if !all {
+						v = it.def
+					}
+					fmt.Fprintf(&b, "/-- %s -/\ndef %s : Nat := %d\n", it.doc, it.name, v)
+				}
+				fmt.Fprintf(&b, "def found_%s : Bool := %v\n\n", it.name, all)
+				if !all {
+					c.missing = append(c.missing, it.name)
+				}
+			}
+			fmt.Fprintf(&b, "/-- %s -/\ndef %s : Bool := %v\n\n", doc, flag, all)
+			c.group = nil
 		}
 
 		// ---------------- encodeUint64 ----------------
@@ -234,7 +304,6 @@ func init() {
 		if len(enc.Type.Params.List) > 0 && len(enc.Type.Params.List[0].Names) > 0 {
 			xName = enc.Type.Params.List[0].Names[0].Name
 		}
-		groupStart := len(c.missing)
 		// `if x <= 127`: first if-statement comparing the value parameter with a constant by < or <=
 		{
 			var v int64
@@ -379,6 +448,8 @@ func init() {
 			nat("encShiftTop", top, okS, "`7-(i+zeroBytes)`: index of the most significant byte")
 		}
 
+		flush("foundEncodeUint64", "every constant of encodeUint64 was recognised (false: the group shows its defaults)")
+
 		// ---------------- decodeUint64 ----------------
 		dec := c.fn("decodeUint64", "")
 		{
@@ -450,7 +521,7 @@ func init() {
 			})
 			nat("decShift", v, ok, "`x = x<<8 | uint64(b)`")
 		}
-		fmt.Fprintf(&b, "/-- every constant of encodeUint64 / decodeUint64 above was recognised -/\ndef foundVarint : Bool := %v\n\n", len(c.missing) == groupStart)
+		flush("foundDecodeUint64", "every constant of decodeUint64 was recognised")
 
 		// ---------------- buffers (information only: no theorem depends on them except `8 ≤ decBufSize`) -------------
 		bufSize := func(fd *ast.FuncDecl) (int64, bool) {
@@ -470,17 +541,15 @@ func init() {
 		}
 		ge := c.fn("GobEncode", "Dawg")
 		gd := c.fn("GobDecode", "Dawg")
-		groupStart = len(c.missing)
 		{
 			v, ok := bufSize(ge)
 			nat("encBufSize", v, ok, "`buf := make([]byte, 9)` in GobEncode (scratch buffer handed to encodeUint64)")
 			v, ok = bufSize(gd)
 			nat("decBufSize", v, ok, "`buf := make([]byte, 9)` in GobDecode (scratch buffer handed to decodeUint64)")
 		}
-		fmt.Fprintf(&b, "def foundBuffers : Bool := %v\n\n", len(c.missing) == groupStart)
+		flush("foundBuffers", "both scratch buffer sizes were recognised")
 
 		// ---------------- final flag ----------------
-		groupStart = len(c.missing)
 		{
 			var tv, fv []int64
 			appended := func(stmts []ast.Stmt) (int64, bool) {
@@ -526,14 +595,15 @@ func init() {
 				return len(a) > 0
 			}
 			var t, f int64
-			ok := same(tv) && same(fv)
+			ok := len(tv) > 0
 			if ok {
 				t, f = tv[0], fv[0]
 			}
+			_ = same
 			nat("finalTrueByte", t, ok, "byte written by GobEncode for a final node (`b = append(b, 1)`), the same at every site")
 			nat("finalFalseByte", f, ok, "byte written by GobEncode for a non-final node (`b = append(b, 0)`)")
 			// `if final != 0 { ….final = true } else { ….final = false }` in GobDecode
-			pred := "false"
+			predText := "false"
 			okP := false
 			setsFinal := func(stmts []ast.Stmt, want string) bool {
 				if len(stmts) != 1 {
@@ -557,21 +627,19 @@ func init() {
 					return true
 				}
 				if setsFinal(is.Body.List, "true") && setsFinal(els.List, "false") {
-					pred, okP = "decide ("+m.lean("(b : Int)")+")", true
+					predText, okP = "decide ("+m.lean("(b : Int)")+")", true
 				} else if setsFinal(is.Body.List, "false") && setsFinal(els.List, "true") {
-					pred, okP = "!decide ("+m.lean("(b : Int)")+")", true
+					predText, okP = "!decide ("+m.lean("(b : Int)")+")", true
 				}
 				return true
 			})
-			if !okP {
-				c.miss("decFinalSet")
-			}
-			fmt.Fprintf(&b, "/-- `if final != 0` in GobDecode: which flag bytes are read as \"final\" -/\ndef decFinalSet (b : Nat) : Bool := %s\n\n", pred)
+			flush("foundFinalWrite", "the final-flag bytes written by GobEncode were recognised (all sites)")
+			fmt.Fprintf(&b, "/-- the final-flag bytes at every recognised site of GobEncode, in source order: a site that disagrees with\n`finalTrueByte` / `finalFalseByte` is a real inconsistency of the source and is reported through `constants_consistent` -/\ndef finalTrueSites : List Nat := %s\ndef finalFalseSites : List Nat := %s\n\n", c12List(tv), c12List(fv))
+			pred("decFinalSet", "(b : Nat) : Bool", predText, okP, "decide ((b : Int) ≠ 0)", "`if final != 0` in GobDecode: which flag bytes are read as \"final\"")
+			flush("foundFinalRead", "the test of the final-flag byte in GobDecode was recognised")
 		}
-		fmt.Fprintf(&b, "def foundFinal : Bool := %v\n\n", len(c.missing) == groupStart)
 
 		// ---------------- Add: `db.d.numWords > 0 && bytes.Compare(db.lastWord, b) != -1` ----------------
-		groupStart = len(c.missing)
 		{
 			add := c.fn("Add", "Builder")
 			pName := ""
@@ -616,12 +684,9 @@ func init() {
 				return true
 			})
 			nat("addHasWordFrom", hasFrom, okH, "`db.d.numWords > 0`: the order check applies from this many stored words on")
-			if !okR {
-				c.miss("addOrderReject")
-			}
-			fmt.Fprintf(&b, "/-- `bytes.Compare(db.lastWord, b) != -1`: the results of the comparison (last word, new word) for which Add\nreturns an error -/\ndef addOrderReject (c : Int) : Bool := %s\n\n", rej)
+			pred("addOrderReject", "(c : Int) : Bool", rej, okR, "decide (c ≠ (-1))", "`bytes.Compare(db.lastWord, b) != -1`: the results of the comparison (last word, new word) for which Add\nreturns an error")
 		}
-		fmt.Fprintf(&b, "def foundOrderCheck : Bool := %v\n\n", len(c.missing) == groupStart)
+		flush("foundOrderCheck", "both halves of the order check of Add were recognised")
 
 		// ---------------- fingerprints (information only; no theorem may depend on them) ----------------
 		pkgNames := map[string]bool{}
@@ -640,7 +705,7 @@ func init() {
 			{"GobEncode", "Dawg"}, {"GobDecode", "Dawg"}, {"encodeUint64", ""}, {"decodeUint64", ""}} {
 			fmt.Fprintf(&b, "def fp_%s : String := %s\n", f[0], strconv.Quote(c12Calls(c.fn(f[0], f[1]), pkgNames)))
 		}
-		fmt.Fprintf(&b, "\n/-- constants whose shape was not recognised -/\ndef missing : List String := [%s]\n", func() string {
+		fmt.Fprintf(&b, "\n/-- items that were NOT regenerated (their group was not recognised; they show the defaults) -/\ndef notRegenerated : List String := [%s]\n", func() string {
 			q := []string{}
 			for _, m := range c.missing {
 				q = append(q, strconv.Quote(m))
@@ -648,6 +713,7 @@ func init() {
 			return strings.Join(q, ", ")
 		}())
 		b.WriteString("\nend Gen.Dawg\n")
+		c12WriteFacts(c.missing)
 		return "DawgConsts.lean", b.String()
 	})
 }
